@@ -129,6 +129,17 @@ pub fn value_leaf<'a, I: Kind<'a> + ValueInput<'a>, E: ErrTy<'a, I>>(g: &G) -> R
         other => return Err(format!("not a value leaf: {other:?}")),
     })
 }
+/// an extension parser that runs a sub-parser through InputRef::parse resp. InputRef::check
+#[derive(Clone)]
+pub struct SubExt<Pz>(Pz);
+impl<'a, I: Kind<'a>, E: ErrTy<'a, I>> chumsky::extension::v1::ExtParser<'a, I, Val, X<E>> for SubExt<P<'a, I, E>> {
+    fn parse(&self, inp: &mut InputRef<'a, '_, I, X<E>>) -> Result<Val, E> {
+        inp.parse(&self.0)
+    }
+    fn check(&self, inp: &mut InputRef<'a, '_, I, X<E>>) -> Result<(), E> {
+        inp.check(&self.0)
+    }
+}
 /// an extension parser (feature `extension`) with separate value-building and checking bodies
 #[derive(Clone)]
 pub struct KExt {
@@ -903,6 +914,7 @@ where
         G::WithState(a) => build(a, env)?.with_state(St::default()).bxd(),
         G::Text(name, arg) => I::text::<E>(name, arg)?,
         G::TPadded(a) => I::tpadded::<E>(build(a, env)?)?,
+        G::ExtSub(a) => chumsky::extension::v1::Ext(SubExt(build(a, env)?)).bxd(),
         G::Nested(a, b) => crate::tree::nested(build(a, env)?, crate::tree::build_b(b, env)?),
         G::Tree => return Err("a group selector yields an input, not a value: only as the `b` of nested".into()),
         G::Pratt(atom, ops, table) => {
